@@ -8,11 +8,15 @@
 (*            transaction is NOT removed from it, only expired ones are)   *)
 (*                                                                         *)
 (* One action per public call of Node: BuildChunk (a fold of Bonder.Bond   *)
-(* over the submitted txs), Accept (SetMin(ts) -> Unbond each expired, then *)
+(* over the submitted txs, possibly cut short by a Bond error or followed  *)
+(* by a failing inner build), Accept (SetMin(ts) -> Unbond each expired, then *)
 (* Unbond each included tx that is still in the heap), plus SetMaxBalance. *)
 EXTENDS BondLedger, TLC
 
-CONSTANT FixedCode   \* TRUE: Bond returns early for an already recorded tx (the fix); FALSE: as originally coded
+CONSTANTS
+  FixedCode,  \* TRUE: Bond returns early for an already recorded tx (the fix); FALSE: as originally coded
+  LateTrack   \* FALSE: Node adds a tx to its expiry heap right after Bond returned true (the code);
+              \* TRUE: only after the inner DSMR.BuildChunk succeeded (a seeded variant that must violate)
 
 VARIABLES pend, rec, heap, res
 
@@ -52,13 +56,20 @@ Init(i, m) ==
   /\ heap = {}
   /\ res = <<>>
 
-BuildChunk(txs, rate) ==
-  LET st == BondFold([pend |-> pend, rec |-> rec, oks |-> <<>>], txs, rate, 1)
+(* Node.BuildChunk(txs, rate).  Bond is asked for txs[1..cut]; cut < Len(txs) means Bond returned an error for      *)
+(* txs[cut+1] (database failure) and BuildChunk returned it at once; innerFails means the inner DSMR.BuildChunk      *)
+(* returned an error.  In both cases the txs already bonded stay bonded (Bond returned true for them, so Unbond is   *)
+(* owed): they must be in the expiry heap so that expiry / acceptance releases them exactly once.                    *)
+BuildChunk(txs, rate, cut, innerFails) ==
+  LET pre    == SubSeq(txs, 1, cut)
+      st     == BondFold([pend |-> pend, rec |-> rec, oks |-> <<>>], pre, rate, 1)
+      failed == innerFails \/ cut < Len(txs)
+      okd    == {pre[i] : i \in {j \in DOMAIN pre : st.oks[j]}}
   IN /\ pend' = st.pend
      /\ rec' = st.rec
-     /\ heap' = heap \cup {txs[i] : i \in {j \in DOMAIN txs : st.oks[j]}}
+     /\ heap' = IF LateTrack /\ failed THEN heap ELSE heap \cup okd
      /\ res' = st.oks
-     /\ LBuild(txs, st.oks, rate)
+     /\ LBuild(pre, st.oks, rate)
 
 Accept(ts, incl) ==
   LET expired == {t \in heap : info[t].exp < ts}
